@@ -22,6 +22,7 @@ type Ctx struct {
 	SizeKind   string                   // "L", "W" or "N": which size SizeRange bounds
 	SizeRange  *[2]int64                // when the size is not a single value: an interval containing it (a class of rejected sizes)
 	Lang       *IntV                    // value of every Language-typed parameter of the entry point
+	ParamVal   map[*ssa.Parameter]AV    // parameters of the entry point bound to a given value (a command-line option at its default)
 	ParamConst map[*ssa.Parameter]int64 // integer parameters of the entry point fixed to a constant (a predicate helper's bounds at one call site)
 	IntTable   []int64                  // value of every []int parameter of the entry point (a predicate helper's table of constants)
 	// Infeasible blocks (from the gate analysis) for contexts that stand for a set of values
@@ -236,6 +237,9 @@ func (e *Eval) bindParam(p *ssa.Parameter) AV {
 	t := p.Type()
 	if c, ok := e.Ctx.ParamConst[p]; ok {
 		return CInt(c)
+	}
+	if v, ok := e.Ctx.ParamVal[p]; ok && v != nil {
+		return v
 	}
 	if gl := e.P.paramGlobal[p]; gl != nil && e.G != nil {
 		// the entry point's wrapper passes the value of this package-level variable
@@ -563,6 +567,9 @@ func (e *Eval) joinPreds(fr *frame, b *ssa.BasicBlock, within map[*ssa.BasicBloc
 			ins = append(ins, fr.edge[[2]*ssa.BasicBlock{p, b}])
 		}
 		e.joinCondErr(cur, ins)
+		if len(ins) == 2 {
+			e.joinByOutcome(cur, ins[0], ins[1])
+		}
 	}
 	// `if c { sb.WriteString(x) }`: the two incoming builder contents differ by a suffix written
 	// on one arm only; keep it as a conditional part instead of giving up
@@ -667,6 +674,75 @@ func (e *Eval) joinStatesE(a, b State) State {
 		}
 	}
 	return out
+}
+
+// joinByOutcome: two paths merge that differ in the known outcome of one fallible call S — on
+// one it failed, on the other it succeeded (`if err != nil { cleanup() }` with err the error
+// of S).  The outcome cells of other calls that differ between the two (a cleanup call made on
+// the failing side only) are kept as alternatives tied to S's outcome, and put back when that
+// outcome is known again (applyOutcome): "S succeeded" then also means "the cleanup was not run".
+func (e *Eval) joinByOutcome(out, s0, s1 State) {
+	if len(e.errObj) == 0 {
+		return
+	}
+	known := func(s State, o *Obj) (val, ok bool) {
+		c, isCell := s[o].(CellC)
+		if !isCell {
+			return false, false
+		}
+		bv, isB := c.V.(BoolV)
+		return bv.Val, isB && bv.Known
+	}
+	var S ssa.Instruction
+	var okS, errS State
+	n := 0
+	for site, o := range e.errObj {
+		v0, k0 := known(s0, o)
+		v1, k1 := known(s1, o)
+		if !k0 || !k1 || v0 == v1 {
+			continue
+		}
+		n++
+		S = site
+		if v0 {
+			okS, errS = s0, s1
+		} else {
+			okS, errS = s1, s0
+		}
+	}
+	if n != 1 {
+		return
+	}
+	for _, o := range e.errObj {
+		if o == e.errObj[S] {
+			continue
+		}
+		a, inOK := okS[o]
+		b, inErr := errS[o]
+		if !inOK && !inErr {
+			continue
+		}
+		if inOK && inErr && a.String() == b.String() {
+			continue
+		}
+		tag := fmt.Sprintf("differs with the outcome of call %p", S)
+		ph := topContent(o, tag)
+		out[o] = ph
+		if e.alts == nil {
+			e.alts = map[ssa.Instruction]map[*Obj]altContent{}
+		}
+		if e.alts[S] == nil {
+			e.alts[S] = map[*Obj]altContent{}
+		}
+		alt := altContent{placeholder: ph.String()}
+		if inOK {
+			alt.ok = a
+		}
+		if inErr {
+			alt.err = b
+		}
+		e.alts[S][o] = alt
+	}
 }
 
 // joinCondErr looks, at a merge of several paths, for error cells that the pairwise join
@@ -1466,10 +1542,14 @@ func (e *Eval) applyOutcome(n State, site ssa.Instruction, isNil bool) {
 	n[o] = CellC{KBool(isNil)}
 	for obj, alt := range e.alts[site] {
 		if cur, ok := n[obj]; ok && cur.String() == alt.placeholder {
+			v := alt.err
 			if isNil {
-				n[obj] = alt.ok
+				v = alt.ok
+			}
+			if v == nil {
+				delete(n, obj) // on that side the object did not exist (a call that was not made)
 			} else {
-				n[obj] = alt.err
+				n[obj] = v
 			}
 		}
 	}
@@ -3801,6 +3881,11 @@ func (e *Eval) load(fr *frame, x *ssa.UnOp, a AV, st State) AV {
 					// the array copied by value: its current content, no longer tied to the buffer
 					return stripObj(e.resolveBytes(bv, st))
 				}
+			}
+			if _, isErr := c.V.(ErrV); isErr {
+				// an error kept in a variable (a named result read by a deferred clean-up): what
+				// this path knows about the call it came from still holds
+				return e.errOnPath(c.V, st)
 			}
 			return c.V
 		case VecC:
